@@ -1134,10 +1134,14 @@ def structured_array_to_string(
             # integer types need a no-decimal formatting
             element_format_str = value_format.replace("{}", "{:0.0f}") + col_delim
         elif kind == "f":
-            # add the digits formatting to floats
-            element_format_str = (
-                value_format.replace("{}", "{:." + str(digits) + "f}") + col_delim
-            )
+            # add the digits formatting to floats: 4-byte floats are
+            # written with the 9 significant digits that round-trip them
+            # exactly rather than on an absolute fixed-point grid
+            if array[name].dtype.itemsize <= 4:
+                spec = "{:.9g}"
+            else:
+                spec = "{:." + str(digits) + "f}"
+            element_format_str = value_format.replace("{}", spec) + col_delim
         else:
             raise ValueError("dtype %s not convertible!", array.dtype)
         format_str += element_row_length * element_format_str
@@ -1149,6 +1153,9 @@ def structured_array_to_string(
 
     # loop through flat fields and flatten to single array
     count = len(array)
+    if count == 0:
+        # nothing to format: `reshape((0, -1))` is ambiguous
+        return ""
     # will upgrade everything to a float
     flattened = np.hstack(
         [array[k].reshape((count, -1)) for k in array.dtype.names]
